@@ -1610,7 +1610,15 @@ func ruleFwdPure(p *Prog, r *Report, api, callee string) {
 			}
 			n++
 			cons := fmt.Sprintf("option argument #%d of %s", i, callee)
-			if len(infl.globals) == 0 {
+			other := ""
+			for prm := range infl.params {
+				if va != nil && prm != va && prm.Parent() == fn {
+					other = prm.Name()
+				}
+			}
+			if len(infl.globals) == 0 && other != "" {
+				r.Bad(rule, api, cons, p.Pos(c.Pos()), "the option value handed on depends on the parameter '"+other+"' as well: what the caller asked for is overridden for some arguments")
+			} else if len(infl.globals) == 0 {
 				r.OK(rule, api, cons, p.Pos(c.Pos()), "derived from the caller's option only")
 			} else {
 				r.Bad(rule, api, cons, p.Pos(c.Pos()), "the option value handed on depends on package state ("+strings.Join(infl.globalNames(), ",")+"): the callee's other uses of the option see a different value than the caller asked for")
